@@ -522,6 +522,18 @@ impl Relayer {
                 }
             }
 
+            // `into_view` recomputes the proposals hash and the extra hash from the body, so a
+            // body the verified header does not commit to yields a block with another hash
+            if block.hash() != compact_block.calc_header_hash() {
+                return ReconstructionResult::Error(
+                    StatusCode::ProtocolMessageIsMalformed.with_context(format!(
+                        "reconstructed block hash({}) != compact block header hash({})",
+                        block.hash(),
+                        compact_block.calc_header_hash(),
+                    )),
+                );
+            }
+
             ReconstructionResult::Block(block)
         } else {
             let missing_indexes: Vec<usize> = block_transactions
